@@ -25,9 +25,7 @@ Definition sum_header (h : header) : bytes :=
   "v"%lb ++ dec_of_N (h_version h) ++ (match h_ext h with EProof _ _ => "P"%lb | EDynafed _ _ _ => "D"%lb end).
 Definition none {A} (_ : A) : bytes := "-"%lb.
 
-Definition run (args : list bytes) : bytes :=
-  match args with
-  | [ty; caps; pts; hx] =>
+Definition run4 (ty caps pts hx : bytes) : bytes :=
       match caps5 caps, hexlist pts, hexarg hx with
       | Some (maxvec, ci, co, cv, ct), Some valid, Some input =>
           let pt_ok := mem_bytes valid in
@@ -41,5 +39,10 @@ Definition run (args : list bytes) : bytes :=
           else if bytes_eqb ty "asset"%lb then show_res (c_asset pt_ok) none input
           else if bytes_eqb ty "nonce"%lb then show_res (c_nonce pt_ok) none input
           else err "type"
-      | _, _, _ => err "parse" end
+      | _, _, _ => err "parse" end.
+(* an optional fifth word ("ref": the input is the reference encoding of a canonical value) only matters to the harness *)
+Definition run (args : list bytes) : bytes :=
+  match args with
+  | [ty; caps; pts; hx] => run4 ty caps pts hx
+  | [ty; caps; pts; hx; _] => run4 ty caps pts hx
   | _ => err "args" end.
